@@ -489,6 +489,15 @@ def decodeMembers : Nat → Bytes → Option (List Member × Bytes)
       | none => none
       | some (ms, b'') => some (m :: ms, b'')
 
+/-- the member section of a datagram (`handle_data`): every kind but Broadcast carries a 16-bit count followed
+    by that many members when at least two bytes follow the header; what is left is the custom-broadcast tail -/
+def parseSection (h : Header) (rest : Bytes) : Option (List Member × Bytes) :=
+  if rest.length ≥ Gen.sectionMinBytes && h.msg != .broadcast then
+    match rest with
+    | hi :: lo :: r => decodeMembers E (hi * 256 + lo) r
+    | _ => none
+  else some ([], rest)
+
 /-- the `while data.remaining() > 2` loop of `handle_custom_broadcasts`; `fuel ≥ data.length` -/
 def customLoop (sender : Option Id) : Nat → Bytes → M Unit
   | 0, _ => throwE .malformed
@@ -571,13 +580,7 @@ def handleData (data : Bytes) : M Unit := do
     let remaining := rest.length
     if remaining == Gen.trailingByteBad || (h.msg == .announce && remaining > 0) then throwE .malformed else
     if !Gen.acceptPayload s.id h.dst h.msg then pure () else
-    let parsed : Option (List Member × Bytes) :=
-      if remaining ≥ Gen.sectionMinBytes && h.msg != .broadcast then
-        match rest with
-        | hi :: lo :: r => decodeMembers E (hi * 256 + lo) r
-        | _ => none
-      else some ([], rest)
-    match parsed with
+    match parseSection E h rest with
     | none => throwE .decode
     | some (updates, tail) =>
       let senderActive ← applyUpdate E ⟨h.src, h.srcInc, .alive⟩ true
